@@ -1,9 +1,25 @@
-(* Direct cases for cookie::sign / cookie::verify.  No proofs. *)
-From Passage Require Import Lib.Bytes Spec.Sha256 Spec.Hmac Crypto.Cookie.
+(* Direct cases for cookie::sign / cookie::verify, and for serde_json on the two cookie
+   records (families JS / JP, model in Crypto/CookieJson.v).  No proofs. *)
+From Passage Require Import Lib.Bytes Spec.Sha256 Spec.Hmac Crypto.Cookie Conn.Types Crypto.CookieJson.
 
 Inductive ckcase :=
 | SG (secret msg signed : bytes)                       (* sign(msg, secret) = signed *)
-| CK (secret signed : bytes) (ok : bool) (msg : bytes).  (* verify(signed, secret) = (ok, msg) *)
+| CK (secret signed : bytes) (ok : bool) (msg : bytes)   (* verify(signed, secret) = (ok, msg) *)
+| JSA (c : auth_cookie) (b : bytes)                      (* serde_json::to_vec(&c) = b *)
+| JSS (trace : option bytes) (c : session_cookie) (b : bytes)   (* to_vec(&SessionCookie{c.., trace_id}) = b *)
+| JPA (b : bytes) (r : jres auth_cookie)                 (* from_slice::<AuthCookie>(b) = r *)
+| JPS (b : bytes) (r : jres (option session_cookie)).    (* from_slice::<Option<SessionCookie>>(b) = r *)
+
+Definition ck_auth_eqb (a b : auth_cookie) : bool :=
+  (ac_ts a =? ac_ts b) && sa_eqb (ac_addr a) (ac_addr b) && beq (ac_name a) (ac_name b)
+  && (ac_uuid a =? ac_uuid b) && obytes_eq (ac_target a) (ac_target b)
+  && pprops_eqb (ac_props a) (ac_props b) && meta_eqb (ac_extra a) (ac_extra b).
+Definition ck_session_eqb (a b : session_cookie) : bool :=
+  (sc_id a =? sc_id b) && beq (sc_host a) (sc_host b) && (sc_port a =? sc_port b).
+Definition jres_eqb {A} (eqb : A -> A -> bool) (x y : jres A) : bool :=
+  match x, y with JOk a, JOk b => eqb a b | JErr, JErr => true | _, _ => false end.
+Definition osession_eqb (a b : option session_cookie) : bool :=
+  match a, b with Some x, Some y => ck_session_eqb x y | None, None => true | _, _ => false end.
 
 Definition check_cookie (c : ckcase) : Z :=
   match c with
@@ -17,4 +33,28 @@ Definition check_cookie (c : ckcase) : Z :=
          32 bytes are the HMAC-SHA256 tag of the rest under this secret *)
       + (if Bool.eqb ok ((32 <=? length signed)%nat && beq (firstn 32 signed) (hmac_sha256 secret (skipn 32 signed)))
          then 0 else 2)
+  (* the writer: the model's bytes are serde_json's bytes, and the model's parser reads them
+     back as the record (a record the round-trip theorem does not cover is skipped: in
+     particular a HashMap of two or more entries, whose order serde_json does not fix) *)
+  | JSA c b =>
+      if negb (wf_auth c) then 4
+      else if beq (ser_auth c) b && jres_eqb ck_auth_eqb (match parse_auth b with Some r => r | None => JErr end) (JOk c)
+      then 0 else 1
+  | JSS trace c b =>
+      if negb (wf_session c && wf_ostr trace) then 4
+      else if beq (ser_session_t trace c) b
+              && (match trace with Some t => negb (beq t trace_invalid) | None => true end || beq (ser_session c) b)
+              && jres_eqb osession_eqb (match parse_session b with Some r => r | None => JErr end) (JOk (Some c))
+      then 0 else 1
+  (* the parser: whenever the model gives a verdict it is serde_json's *)
+  | JPA b r =>
+      match parse_auth b with
+      | None => 4
+      | Some r' => if jres_eqb ck_auth_eqb r' r then 0 else 1
+      end
+  | JPS b r =>
+      match parse_session b with
+      | None => 4
+      | Some r' => if jres_eqb osession_eqb r' r then 0 else 1
+      end
   end.
